@@ -212,7 +212,9 @@ def run(case: dict, lean: Lean) -> Outcome:
         if case["n"] == 0: classes.append("empty collection")
         if 0 in lens: classes.append("contains empty list")
         if mixed: classes.append("lists with differing fields")
-        if failed and (case["n"] == 0 or 0 in lens or mixed): key = "ItemListCollection.save_parquet: empty collection / empty lists / differing fields"
+        # what remains unrepaired concerns empty collections and empty lists only; a failure on a non-empty list is a new violation
+        only_empty = all(f.startswith("parquet:") or f.split(": {'ids': []")[0] != f for f in failed)
+        if failed and (case["n"] == 0 or 0 in lens) and only_empty: key = "ItemListCollection.save_parquet: empty collection / empty lists"
     else:
         ds = make_ds(case["seed"] % 1000, extra_class=case["extra"]); fp = fingerprint(ds)
         tmp = tempfile.mkdtemp(prefix="c15_", dir=WORK)
